@@ -2,7 +2,7 @@ SPECIFICATION Spec
 CONSTANTS
   MaxLen = 6
   MaxNodes = 4
-  MaxVnodes = 3
+  MaxVnodes = 2
   NDcs = 2
   NRacks = 3
   NtsRfs = {99, 0, 1, 2, 3}
